@@ -196,28 +196,28 @@ PLAN["C01"] = {
     "trusted": ["rustc / kani-compiler / CBMC", "reference rules (harness/common/rules.rs)"],
     "assumptions": ["positions are legal positions (invariant of the property's quantifier)"],
     "insts": [
-        _c01_filter("filter_pieces_white_u2", 2, ("quick", "thorough"), 3600, 10),
-        _c01_filter("filter_pieces_black_u2", 2, ("quick", "thorough"), 3600, 10),
-        _c01_filter("filter_king_white_u2", 2, ("quick", "thorough"), 3600, 10),
-        _c01_filter("filter_king_black_u2", 2, ("quick", "thorough"), 3600, 10),
-        _c01_filter("filter_pawn_white_u2", 2, ("quick", "thorough"), 3600, 10),
-        _c01_filter("filter_pawn_black_u2", 2, ("quick", "thorough"), 3600, 10),
+        _c01_filter("filter_pieces_white_u2", 2, ("quick", "thorough"), 3600, 4),
+        _c01_filter("filter_pieces_black_u2", 2, ("quick", "thorough"), 3600, 4),
+        _c01_filter("filter_king_white_u2", 2, ("quick", "thorough"), 3600, 4),
+        _c01_filter("filter_king_black_u2", 2, ("quick", "thorough"), 3600, 4),
+        _c01_filter("filter_pawn_white_u2", 2, ("quick", "thorough"), 3600, 4),
+        _c01_filter("filter_pawn_black_u2", 2, ("quick", "thorough"), 3600, 4),
         _c01_filter("filter_pieces_white_u3", 3, ("thorough",), 7200, 16),
         _c01_filter("filter_pieces_black_u3", 3, ("thorough",), 7200, 16),
         _c01_filter("filter_king_white_u3", 3, ("thorough",), 7200, 16),
         _c01_filter("filter_king_black_u3", 3, ("thorough",), 7200, 16),
         _c01_filter("filter_pawn_white_u3", 3, ("thorough",), 7200, 16),
         _c01_filter("filter_pawn_black_u3", 3, ("thorough",), 7200, 16),
-        Inst("c01::lemma_legal_moves_are_candidates", sub="C01 glue", timeout=1800, mem_gb=8, functions=("(reference only: rules::legal_ref, rules::gen_pseudo)",),
+        Inst("c01::lemma_legal_moves_are_candidates", sub="C01 glue", timeout=1800, mem_gb=5, functions=("(reference only: rules::legal_ref, rules::gen_pseudo)",),
              bounds="any legal position, any coordinates; no bound"),
-        _c01_gen("gen_kk_white_sound", 1, 8, ('quick', 'thorough'), 3600, 12, 8),
-        _c01_gen("gen_kk_white_complete", 1, 8, ('quick', 'thorough'), 3600, 12, 8),
-        _c01_gen("gen_kk_black_sound", 1, 8, ('thorough',), 3600, 12, 8),
-        _c01_gen("gen_kk_black_complete", 1, 8, ('thorough',), 3600, 12, 8),
-        _c01_gen("gen_kn_k_white_sound", 1, 8, ('thorough',), 3600, 12, 16),
-        _c01_gen("gen_kn_k_white_complete", 1, 8, ('thorough',), 3600, 12, 16),
-        _c01_gen("gen_kn_k_black_sound", 1, 8, ('quick', 'thorough'), 3600, 12, 16),
-        _c01_gen("gen_kn_k_black_complete", 1, 8, ('quick', 'thorough'), 3600, 12, 16),
+        _c01_gen("gen_kk_white_sound", 1, 8, ('thorough',), 3600, 6, 8),
+        _c01_gen("gen_kk_white_complete", 1, 8, ('thorough',), 3600, 6, 8),
+        _c01_gen("gen_kk_black_sound", 1, 8, ('thorough',), 3600, 6, 8),
+        _c01_gen("gen_kk_black_complete", 1, 8, ('thorough',), 3600, 6, 8),
+        _c01_gen("gen_kn_k_white_sound", 1, 8, ('thorough',), 3600, 10, 16),
+        _c01_gen("gen_kn_k_white_complete", 1, 8, ('thorough',), 3600, 10, 16),
+        _c01_gen("gen_kn_k_black_sound", 1, 8, ('thorough',), 3600, 10, 16),
+        _c01_gen("gen_kn_k_black_complete", 1, 8, ('thorough',), 3600, 10, 16),
         _c01_gen("gen_kn_kn_white_sound", 1, 8, ('thorough',), 3600, 12, 16),
         _c01_gen("gen_kn_kn_white_complete", 1, 8, ('thorough',), 3600, 12, 16),
         _c01_gen("gen_kr_k_white_sound", 1, 14, ('thorough',), 7200, 14, 22),
@@ -232,18 +232,19 @@ PLAN["C01"] = {
         _c01_gen("gen_kq_k_white_complete", 1, 27, ('thorough',), 10800, 16, 35),
         _c01_gen("gen_kq_k_black_sound", 1, 27, ('thorough',), 10800, 16, 35),
         _c01_gen("gen_kq_k_black_complete", 1, 27, ('thorough',), 10800, 16, 35),
-        _c01_gen("gen_kp_kn_white_sound", 1, 8, ('quick', 'thorough'), 3600, 14, 16),
-        _c01_gen("gen_kp_kn_white_complete", 1, 8, ('quick', 'thorough'), 3600, 14, 16),
-        _c01_gen("gen_kp_kn_black_sound", 1, 8, ('thorough',), 3600, 14, 16),
-        _c01_gen("gen_kp_kn_black_complete", 1, 8, ('thorough',), 3600, 14, 16),
-        _c01_gen("gen_kp_kp_ep_white_sound", 1, 8, ('thorough',), 3600, 14, 12),
-        _c01_gen("gen_kp_kp_ep_white_complete", 1, 8, ('thorough',), 3600, 14, 12),
-        _c01_gen("gen_kp_kp_ep_black_sound", 1, 8, ('quick', 'thorough'), 3600, 14, 12),
-        _c01_gen("gen_kp_kp_ep_black_complete", 1, 8, ('quick', 'thorough'), 3600, 14, 12),
-        _c01_gen("gen_castle_white_sound", 2, 14, ('quick', 'thorough'), 7200, 16, 40),
-        _c01_gen("gen_castle_white_complete", 2, 14, ('quick', 'thorough'), 7200, 16, 40),
-        _c01_gen("gen_castle_black_sound", 2, 14, ('thorough',), 7200, 16, 40),
-        _c01_gen("gen_castle_black_complete", 2, 14, ('thorough',), 7200, 16, 40),
+        _c01_gen("gen_kp_kn_white_sound", 1, 8, ('quick', 'thorough'), 3600, 13, 16),
+        _c01_gen("gen_kp_kn_white_complete", 1, 8, ('quick', 'thorough'), 3600, 13, 16),
+        _c01_gen("gen_kp_kn_black_sound", 1, 8, ('thorough',), 3600, 13, 16),
+        _c01_gen("gen_kp_kn_black_complete", 1, 8, ('thorough',), 3600, 13, 16),
+        _c01_gen("gen_kp_kp_ep_white_sound", 1, 8, ('thorough',), 3600, 13, 12),
+        _c01_gen("gen_kp_kp_ep_white_complete", 1, 8, ('thorough',), 3600, 13, 12),
+        _c01_gen("gen_kp_kp_ep_black_sound", 1, 8, ('quick', 'thorough'), 3600, 13, 12),
+        _c01_gen("gen_kp_kp_ep_black_complete", 1, 8, ('quick', 'thorough'), 3600, 13, 12),
+        _c01_gen("gen_castle_white_sound", 2, 14, ('quick', 'thorough'), 3600, 8, 40),
+        _c01_gen("gen_castle_white_complete", 2, 14, ('quick', 'thorough'), 3600, 8, 40),
+        _c01_gen("gen_castle_black_sound", 2, 14, ('quick', 'thorough'), 3600, 8, 40),
+        _c01_gen("gen_castle_black_complete", 2, 14, ('quick', 'thorough'), 3600, 8, 40),
+        _c01_gen("probe_gen_kp_kp_ep_black_complete_fast", 1, 8, ("probe",), 3600, 14, 12),
         Inst("c01::reach_witness", sub="vacuity", unwind=10, nomem=True, timeout=1800, expect="fail",
              unwindset=(("expand_moves", 10), ("compute_pawn_moves", 6), ("compute_knight_moves", 3), ("compute_bishop_moves", 3), ("compute_rook_moves", 3),
                         ("compute_queen_moves", 3), ("compute_king_moves", 4), ("from_occupancy#0", 3), ("from_occupancy#1", 8), ("piece_at#0", 8), ("piece_at#1", 4), ("family", 6))),
@@ -359,14 +360,15 @@ def _c08_inst(name, sub, tiers=("quick", "thorough"), timeout=3600, mem=12, boun
 PLAN["C08"] = {
     "feature": "c08",
     "exhaustive": False,
-    "bounds": "equality half: all key tables (1026 arbitrary keys), the family K+P vs k+p with symbolic squares/ep and arbitrary counters; a position reached by two real moves vs set up directly; separation half: key tables from splitmix64(VERIF_SEED) (two independent tables), families of kings + 3..4 men (concrete kinds, symbolic squares), pairs differing in side / one castling right / en-passant availability / one move's worth of placement",
+    "bounds": "equality half: seeded key table (VERIF_SEED), the family K+R vs k+p with symbolic squares/rights/ep and arbitrary counters; a position reached by two real moves vs set up directly; separation half: key tables from splitmix64(VERIF_SEED) (two independent tables), families of kings + 3..4 men (concrete kinds, symbolic squares), pairs differing in side / one castling right / en-passant availability / one move's worth of placement",
     "outside": ["pairs differing in more than four placement incidences (any 65 keys are linearly dependent over GF(2): far-apart colliding pairs exist under every seed)",
-                "the ChaCha8 generator itself (keys are taken from a generic Rng)"],
+                "the ChaCha8 generator itself (keys are taken from a generic Rng)",
+                "equality for *every* key table: decided under the seeded table of the run; that the hash reads nothing but placement, side, rights and ep target "
+                "(hence is independent of counters and history under any table) is read from the code, a fully symbolic table exhausts memory"],
     "trusted": ["rustc / kani-compiler / CBMC"],
     "assumptions": ["a failure of the separation half must reproduce under two independent key tables to count (2^-64 coincidences are not defects)"],
     "insts": [
-        _c08_inst("equal_positions_hash_equal", "C08.a", bounds="all key tables (1026 arbitrary keys); K+P vs k+p, symbolic squares, ep target and counters",
-                  extra=("--no-array-field-sensitivity",)),
+        _c08_inst("equal_positions_hash_equal", "C08.a", bounds="seeded key table; K+R vs k+p, symbolic squares, rights, ep target and counters"),
         _c08_inst("reached_and_constructed_hash_equal", "C08.a", bounds="seeded keys; K+N vs k: knight move and king step by the real successor function vs the same position set up directly, all squares, arbitrary counters"),
         _c08_inst("separates_side_to_move", "C08.b", bounds="seeded keys; K+Q vs k+n+p; pair differs in side to move"),
         _c08_inst("separates_castling_rights", "C08.b", bounds="seeded keys; K+R+R vs k+r+r; pair differs in exactly one castling right"),
